@@ -23,7 +23,7 @@ TARGET = {
  'C20-m1': [('C20', 'ALIAS')], 'C20-m2': [('C20', 'KMM')], 'C20-m3': [('C20', 'KMM_f32')],
  'C17-m1': [('C17', None)], 'C17-m2': [('C17', None)], 'C11-m1': [('C11', 'seek')], 'C11-m2': [('C11', 'iterate')],
  'C02-m1': [('C02', None)], 'C02-m2': [('C02', 'LN')],
- 'C10c-m1': [('C04', 'O1_raw_rd_chunk'), ('C10', None)],  'C15c-m1': [('C15', 'O2_block')], 'C05c-m1': [('C05', None)],
+ 'C14c-m1': [('C14', None)], 'C10c-m1': [('C04', 'O1_raw_rd_chunk'), ('C10', None)],  'C15c-m1': [('C15', 'O2_block')], 'C05c-m1': [('C05', None)],
  'C04-m1': [('C04', 'errprop')], 'C04-m2': [('C04', 'errprop')], 'C05-m1': [('C05', None)], 'C05-m2': [('C02', 'LN_two')],
 }
 
